@@ -120,13 +120,41 @@ def model_store(elements, order=None):
 
 # ------------------------------------------------------------ worker side
 
+def prerotate(spec, k, rng):
+    """the record description read from another origin (what `>> k` should give), computed here: every part moves by k;
+    a part that now runs past the end is written either as a join over the origin or in the extended form"""
+    n = len(spec["seq"])
+    k %= n
+    if not k:
+        return spec
+    out = dict(spec, seq=spec["seq"][-k:] + spec["seq"][:-k], features=[])
+    for f in spec["features"]:
+        parts = []
+        for a, b, st in f["parts"]:
+            whole = (b - a == n)
+            a2, b2 = a + k, b + k
+            if a2 >= n:
+                a2, b2 = a2 - n, b2 - n
+            if whole:
+                parts.append([0, n, st])
+            elif b2 > n and rng.random() < 0.7:
+                two = [[a2, n, st], [0, b2 - n, st]]
+                parts.extend(reversed(two) if st == -1 else two)
+            else:
+                parts.append([a2, b2, st])
+        out["features"].append(dict(f, parts=parts))
+    if spec.get("tracks"):
+        out["tracks"] = [t[-k:] + t[:-k] for t in spec["tracks"]]
+    return out
+
+
 def build(elements):
     """entities over shared record objects"""
     from harness import implutil, recutil
     ents = []
     for e in elements:
         rec = recutil.mk_record(e["rec"])
-        if e.get("rot"):
+        if e.get("rot") and not e.get("prerot"):
             rec = rec >> e["rot"]
         ents.append(implutil.get_class(e["cls"])(rec))
     return ents
